@@ -141,3 +141,19 @@ HEAP_HEADERS["C15"] = ("From CppUVerif Require Import lib.CSem lib.CMem lib.CHea
                        "(* translated by tools/cxx2heap.py: LocationToFailAllocNode (every member function) and the list-walking member functions of "
                        "FailableMemoryAllocator; a source file name is an opaque integer (StrCmp(a, b) != 0 is a <> b); the allocations it "
                        "lets through and the nodes it obtains / releases are ghost events *)\nDefinition sizeof_LocationToFailAllocNode : Z := 32.\n")
+
+# ------------------------------------------------------------------ C17: the pointer table of SetPointerPlugin
+TPL = "src/CppUTest/TestPlugin.cpp"
+_G17 = [["evs", "list hev"], ["nx", "Z"]]
+_C17C = {"fail": {"abort": "HFail"}, "getCurrent": "0"}
+HEAP_RECORDS["C17"] = [["cpputest_pair", TPL]]
+HEAP_GROUPS["C17"] = [
+    dict(file=TPL, name="CppUTestStore", coq="src_CppUTestStore", calls=_C17C, ghosts=_G17,
+         heap_globals={"pointerTableIndex": "g_pointerTableIndex", "setlist": "g_setlist"}),
+    dict(file=TPL, name="SetPointerPlugin::postTestAction", coq="src_SetPointer_postTestAction", calls=_C17C, ghosts=_G17,
+         heap_globals={"pointerTableIndex": "g_pointerTableIndex", "setlist": "g_setlist"}),
+]
+HEAP_HEADERS["C17"] = ("From CppUVerif Require Import lib.CSem lib.CMem lib.CHeap.\nLocal Open Scope Z_scope.\n"
+                       "(* translated by tools/cxx2heap.py: CppUTestStore and SetPointerPlugin::postTestAction; the file-static pointerTableIndex and "
+                       "setlist[MAX_SET] are heap objects reached through the pointer parameters g_pointerTableIndex / g_setlist; a `void**` is the "
+                       "address of a cell; FAIL(...) is the ghost event HFail and leaves the function *)\n")
